@@ -10,7 +10,7 @@ mod verif_glyf_points {
     use std::{vec, vec::Vec};
 
     //@defaults unit=U01.5g props=C01,C20,C09 tier=quick level=bounded bound="any bytes <=24 B; glyphs declaring <=3 points for read_points_fast; for the iterator any bytes <=20 B, one contour, any declared point count (first 3 steps)" timeout=900
-    //@harness fns=SimpleGlyph::read_points_fast,SimpleGlyph::num_points bound="any bytes <=20 B, one contour declaring <=2 points"
+    //@harness fns=SimpleGlyph::read_points_fast,SimpleGlyph::num_points tier=thorough timeout=2400 bound="any bytes <=20 B, one contour declaring <=2 points"
     #[kani::proof]
     #[kani::unwind(6)]
     fn glyf_read_points_fast_total() {
@@ -26,23 +26,6 @@ mod verif_glyf_points {
         let r = g.read_points_fast(&mut points[..n], &mut flags[..n]);
         kani::cover!(r.is_ok() && n == 2);
         kani::cover!(r.is_err() && n == 2);
-    }
-    //@harness fns=SimpleGlyph::read_points_fast bound="any bytes <=16 B" note="buffers of the wrong size are refused, never indexed"
-    #[kani::proof]
-    #[kani::unwind(6)]
-    fn glyf_read_points_fast_wrong_len() {
-        let buf: [u8; 16] = kani::any();
-        let len: usize = kani::any();
-        kani::assume(len <= 16);
-        let Ok(g) = SimpleGlyph::read(FontData::new(&buf[..len])) else { return; };
-        let n = g.num_points();
-        let m: usize = kani::any();
-        let k: usize = kani::any();
-        kani::assume(m <= 3 && k <= 3 && (m != n || k != n));
-        let mut p2 = [Point::<i32>::default(); 3];
-        let mut f2 = [PointFlags::default(); 3];
-        assert!(matches!(g.read_points_fast(&mut p2[..m], &mut f2[..k]), Err(ReadError::InvalidArrayLen)));
-        kani::cover!(n == 2 && m == 2 && k == 3);
     }
     //@harness fns=SimpleGlyph::points,PointIter::next,PointIter::advance_flags,PointIter::advance_points,resolve_coords_len
     #[kani::proof]
